@@ -8,7 +8,8 @@ EXTRACTED generated definitions (build/x02f) are run next to the real functions 
 * Census.popcount32b on uint32 arrays (as census_cost calls it), against the generated popcount32b, and against the
   number of set bits (the property at that level);
 * img_tools.census_transform on image datasets, against the generated census_transform (validity, shape, every value)
-  and against an independent bit-string oracle;
+  and against the property at that level (the xor / popcount of two transformed pixels = the number of window pixels
+  whose 'greater than the centre' bits differ, whatever the bit layout);
 * img_tools.compute_mean_raster / compute_std_raster, against the generated rasters (mean: bridging tolerance; standard
   deviation: the zero decision exactly, the value sqrt(var) under the tolerance) and the direct window mean / variance;
 * the masks cv_masked obtains from masks_dilatation during a REAL cv_masked run (the staticmethod is wrapped for the
@@ -64,20 +65,30 @@ def _img(rng, rows, cols, style):
     return [[rng.randint(0, amp) for _ in range(cols)] for _ in range(rows)]
 
 
-def _census_oracle(img, w):
+def _census_bits(img, w):
+    """per pixel of the transform, the tuple of the w*w bits 'window pixel > centre of the window' (row-major)"""
     rows, cols = len(img), len(img[0])
     off = (w - 1) // 2
-    out = []
-    for r in range(rows - (w - 1)):
-        line = []
-        for c in range(cols - (w - 1)):
-            v = 0
-            for a in range(w):
-                for b in range(w):
-                    v = (v << 1) | (1 if img[r + a][c + b] > img[r + off][c + off] else 0)
-            line.append(v)
-        out.append(line)
-    return out
+    return [[tuple(img[r + a][c + b] > img[r + off][c + off] for a in range(w) for b in range(w))
+             for c in range(cols - (w - 1))] for r in range(rows - (w - 1))]
+
+
+def _census_hamming_failure(realv, bits):
+    """the property at the level of the transform: the xor / popcount of two transformed pixels is the number of window
+    pixels whose bits differ (whatever the layout of the bits in the word).  Every pixel against the first one and
+    against its right neighbour.  Returns None or a description."""
+    if [len(realv), len(realv[0]) if realv else 0] != [len(bits), len(bits[0]) if bits else 0]:
+        return f"shape {[len(realv), len(realv[0]) if realv else 0]}, one value per window is {[len(bits), len(bits[0])]}"
+    nr, nc = len(bits), len(bits[0])
+    for r in range(nr):
+        for c in range(nc):
+            for (r2, c2) in ((0, 0), (r, min(c + 1, nc - 1))):
+                d = bin(realv[r][c] ^ realv[r2][c2]).count("1")
+                e = sum(x != y for x, y in zip(bits[r][c], bits[r2][c2]))
+                if d != e:
+                    return (f"transforms {realv[r][c]} at ({r},{c}) and {realv[r2][c2]} at ({r2},{c2}) differ in {d} bits, the two "
+                            f"windows differ in {e} 'greater than the centre' bits")
+    return None
 
 
 def _dec_arr(v, dec):
@@ -104,7 +115,12 @@ def run(ctx):
     xs += [1 << k for k in range(32)] + [(1 << k) - 1 for k in range(1, 33)]
     xs += [rng.getrandbits(32) for _ in range(300 if quick else 5000)]
     xs += [rng.getrandbits(rng.randint(1, 25)) for _ in range(100)]
-    real = [int(v) for v in Census.popcount32b(np.array(xs, dtype=np.uint32))]
+    try:
+        real = [int(v) for v in Census.popcount32b(np.array(xs, dtype=np.uint32))]
+    except Exception as exc:  # pylint: disable=broad-except
+        ctx.violation("raises_popcount32b", f"Census.popcount32b on a uint32 array raises {type(exc).__name__}: {str(exc)[:120]}",
+                      {"kind": "popcount", "x": xs[:8]})
+        real = [bin(x).count("1") for x in xs]
     got = model.batch([(1, xs)])[0]
     for x, r, m in zip(xs, real, got):
         ctx.count("gen_popcount_calls")
@@ -124,7 +140,13 @@ def run(ctx):
         rows, cols = rng.randint(w, w + 5), rng.randint(w, w + 6)
         img = _img(rng, rows, cols, rng.choice(["rand", "few", "few", "big", "flat"]))
         ds = pu.image_dataset(np.array(img, dtype=np.float32), disp=None)
-        out = img_tools.census_transform(ds, w)["im"].data
+        try:
+            out = img_tools.census_transform(ds, w)["im"].data
+        except Exception as exc:  # pylint: disable=broad-except
+            ctx.case(None)
+            ctx.violation("raises_census_transform", f"census_transform (window {w}) of a {rows}x{cols} image raises "
+                          f"{type(exc).__name__}: {str(exc)[:120]}", {"kind": "census_transform", "image": img, "window": w})
+            continue
         jobs.append((2, [img, w]))
         impl.append((img, w, out))
     for (img, w, out), m in zip(impl, model.batch(jobs)):
@@ -137,9 +159,11 @@ def run(ctx):
         if not ok or [nr, nc] != list(out.shape) or vals != realv:
             ctx.mismatch("gen_census_transform", case, {"shape": list(out.shape), "values": realv},
                          {"valid": ok, "shape": [nr, nc], "values": vals})
-        if realv != _census_oracle(img, w) or str(out.dtype) != "uint32":
-            ctx.violation("census_transform_bits", f"census_transform (window {w}) of {img} = {realv} ({out.dtype}); the bit "
-                          f"strings 'pixel > centre', row-major, MSB first, are {_census_oracle(img, w)}", case)
+        bad = _census_hamming_failure(realv, _census_bits(img, w))
+        if bad is None and str(out.dtype) != "uint32":
+            bad = f"dtype {out.dtype}"
+        if bad:
+            ctx.violation("census_transform_bits", f"census_transform (window {w}) of {img}: {bad}", case)
 
     # ---------------- compute_mean_raster / compute_std_raster
     jobs, impl = [], []
@@ -153,8 +177,14 @@ def run(ctx):
                 for b in range(w):
                     img[r0 + a][c0 + b] = img[r0][c0]
         ds = pu.image_dataset(np.array(img, dtype=np.float32), disp=None)
-        mean = img_tools.compute_mean_raster(ds, w)
-        std = img_tools.compute_std_raster(ds, w)
+        try:
+            mean = img_tools.compute_mean_raster(ds, w)
+            std = img_tools.compute_std_raster(ds, w)
+        except Exception as exc:  # pylint: disable=broad-except
+            ctx.case(None)
+            ctx.violation("raises_rasters", f"compute_mean_raster / compute_std_raster (window {w}) of a {rows}x{cols} image "
+                          f"raises {type(exc).__name__}: {str(exc)[:120]}", {"kind": "rasters", "image": img, "window": w})
+            continue
         jobs += [(3, [img, w]), (4, [img, w])]
         impl.append((img, w, mean, std))
     res = model.batch(jobs)
@@ -165,8 +195,14 @@ def run(ctx):
         case = {"kind": "rasters", "image": img, "window": w}
         okm, nrm, ncm, vm = _dec_arr(res[2 * k], core.q_of)
         okv, nrv, ncv, vv = _dec_arr(res[2 * k + 1], core.q_of)
+        want_shape = [len(img) - (w - 1), len(img[0]) - (w - 1)]
+        if list(mean.shape) != want_shape or list(std.shape) != want_shape:
+            ctx.violation("raster_shape", f"compute_mean_raster / compute_std_raster (window {w}) of a {len(img)}x{len(img[0])} image "
+                          f"have shapes {list(mean.shape)} / {list(std.shape)}, one value per window is {want_shape}", case)
         if not okm or [nrm, ncm] != list(mean.shape) or not okv or [nrv, ncv] != list(std.shape):
             ctx.mismatch("gen_raster_shape", case, [list(mean.shape), list(std.shape)], [[okm, nrm, ncm], [okv, nrv, ncv]])
+            continue
+        if list(mean.shape) != want_shape or list(std.shape) != want_shape:
             continue
         for r in range(nrm):
             for c in range(ncm):
